@@ -25,8 +25,9 @@ def include_panic_guards(ck, facts, tier):
     """C20's reviewed site table justifies some panic edges by guards that other properties' rules decide (the reason column cites them):
     csolve's two length guards (R15.2), add_months' roll rewriting / day capping / month carry (R08.2, R08.3, R08.5), aligned array arithmetic
     (R03.1, R03.3, R03.5) and the FX constructor's refusals and index typing (R09.1, R09.2). Removing such a guard leaves the panic edge where it
-    was — the site inventory cannot see it — so C20 includes exactly those rules."""
-    from rules import c15, c08, c03, c09
-    for mod, only in ((c15, {"R15.2"}), (c08, {"R08.2", "R08.3", "R08.5"}), (c03, {"R03.1", "R03.3", "R03.5"}), (c09, {"R09.1", "R09.2"})):
+    was — the site inventory cannot see it — so C20 includes exactly those rules. R11.4 (a curve's nodes are sorted by every constructor and by the loader)
+    is the shape invariant of CurveDF that "loading from JSON text returns a value satisfying its type's shape invariants" quantifies over."""
+    from rules import c15, c08, c03, c09, c11
+    for mod, only in ((c15, {"R15.2"}), (c08, {"R08.2", "R08.3", "R08.5"}), (c03, {"R03.1", "R03.3", "R03.5"}), (c09, {"R09.1", "R09.2"}), (c11, {"R11.4"})):
         with ck.restrict(only):
             _quiet(ck, lambda: mod.run(ck, facts, tier))
